@@ -16,6 +16,8 @@ CHECKS = {
              technique="Coq proof (invariant by induction over histories; refutation by vm_compute witness) + vm_compute correspondence", ref="5/C15"),
  "C16": dict(text="Theorems (Coq, closed): with SSPOR.fit's ranking modelled as firstn m r ++ perm_of seed (skipn m r) for an ARBITRARY function perm_of, the leading m sensors are the optimizer's and are the same for every seed, the trailing sets are permutations of each other (under the permutation contract of the generator), equal seeds give equal rankings. Correspondence: for pairs of seeds the model's shuffle_tail applied to a fresh optimizer's ranking and numpy's own permutation must equal SSPOR.all_sensors exactly, for all bases/optimizers, also when the same object is fitted repeatedly.",
              technique="Coq proof (list algebra over an arbitrary permutation oracle) + vm_compute correspondence", ref="5/C16"),
+ "C19": dict(text="Theorems (Coq, closed): for every guarded entry point the decision function of its guards (Guard/Guards.v, over classes of Python values: python/numpy ints of any sign, float, str, list, None, 'auto') returns the stated exception class for EVERY value of the invalid classes, at every life-cycle state (13 theorems incl. NotFittedError for every consumer before fit); on the SSPOR machine a rejected setter changes nothing and a rejection by update_n_basis_modes' own guards changes nothing; the remaining case (rejection inside the re-fit) is REFUTED for the faithful model and recorded as a known finding. Correspondence: exhaustive table entry point x value class x state (~900 rows) compares exception classes with the model; observables before/after every rejected setter/update call; random SSPOR histories with invalid values against the Coq machine.",
+             technique="Coq proof (decision tables by case analysis; state machine) + exhaustive-table vm_compute correspondence", ref="5/C19"),
 }
 NOT_APPLICABLE = {}
 def main():
